@@ -237,9 +237,26 @@ def check(pid, tier, seed, only=None):
     stats, fails, oracle_fails, shards = {}, [], [], 0
     extra = {}
     hook = cfg.get("pre")  # property-specific preparation (generated programs, extra builds...)
-    okb, out = build_harness()
-    log.append(("cargo", out[-3000:]))
-    if not okb:
+    if cfg.get("custom"):
+        okb = True
+        try:
+            stats = cfg["custom"](globals(), cfg, pid, tier, seed, work, problems) or {}
+            for line in open(os.path.join(work, "oracle.tsv")) if os.path.exists(os.path.join(work, "oracle.tsv")) else []:
+                c, _, d = line.rstrip("\n").partition("\t")
+                oracle_fails.append((c, d))
+            if ok:
+                fails, errors, shards = run_cases(work)
+                for name, e in errors:
+                    problems.append(("tool", "coqc failed on generated case file %s: %s" % (name, e[-800:])))
+        except Exception:
+            import traceback
+            problems.append(("tool", "property-specific runner crashed: " + traceback.format_exc()[-1500:]))
+    else:
+        okb, out = build_harness()
+        log.append(("cargo", out[-3000:]))
+    if cfg.get("custom"):
+        pass
+    elif not okb:
         problems.append(("build", "the harness does not build against /repo's working tree (correspondence cannot be set up):\n" + out[-2500:]))
     else:
         cmd = [HARNESS, cfg["harness"], "--seed", str(seed), "--tier", tier, "--out", work]
